@@ -85,7 +85,14 @@ MountFamily ==
           [name |-> <<DOT, SL>> \o D1, blocks |-> <<202>>,
            toks |-> << [pos |-> 0, len |-> 2, name |-> K] >>],
           [name |-> <<DOT, SL>> \o D1 \o <<SL>> \o E, blocks |-> <<202, 103>>,
-           toks |-> << [pos |-> 1, len |-> 3, name |-> J] >>] >> >>
+           toks |-> << [pos |-> 1, len |-> 3, name |-> J] >>] >>,
+       \* M3: names that are not UTF-8 (a Latin-1 byte, 0xFF), written in the manifest text as \351 and \377:
+       \* the saved output must have exactly these paths, byte for byte
+       << [name |-> <<DOT>>, blocks |-> <<103>>,
+           toks |-> << [pos |-> 0, len |-> 3, name |-> <<BS, 51, 53, 49>>] >>],
+          [name |-> <<DOT, SL, 100, BS, 51, 55, 55>>, blocks |-> <<202>>,
+           toks |-> << [pos |-> 0, len |-> 2, name |-> H] >>] >> >>
+LAT == <<233>>   DFF == <<100, 255>>
 (* mount configurations [mode, fam, mpath] and secret roots to choose from *)
 MountCfgs == << [mroot |-> <<>>,          fam |-> 1, mpath |-> <<>>],       \* 1  no collection mount
                 [mroot |-> <<MNT>>,       fam |-> 1, mpath |-> <<>>],       \* 2  outside the output path
@@ -95,7 +102,9 @@ MountCfgs == << [mroot |-> <<>>,          fam |-> 1, mpath |-> <<>>],       \* 1
                 [mroot |-> <<OUT, M>>,    fam |-> 2, mpath |-> <<D>>],      \* 6  /out/m shows ./d only
                 [mroot |-> <<OUT, M>>,    fam |-> 2, mpath |-> <<>>],       \* 7
                 [mroot |-> <<OUT, A, M>>, fam |-> 1, mpath |-> <<>>],       \* 8  beneath the subdirectory /out/a: reached
-                [mroot |-> <<OUT, A, M>>, fam |-> 2, mpath |-> <<D>>] >>    \* 9  again through every link to /out/a
+                [mroot |-> <<OUT, A, M>>, fam |-> 2, mpath |-> <<D>>],      \* 9  again through every link to /out/a
+                [mroot |-> <<OUT, M>>,    fam |-> 3, mpath |-> <<>>],       \* 10 non-UTF-8 names, beneath
+                [mroot |-> <<MNT>>,       fam |-> 3, mpath |-> <<>>] >>     \* 11 non-UTF-8 names, outside (through links)
 SecretRoots == << <<>>, <<SECRET>>, <<OUT, S>>, <<OUT, A, S>> >>        \* none, outside, beneath, deeper (below /out/a)
 
 (* candidate paths below /out, and the content id of the file at each      *)
@@ -124,7 +133,9 @@ Targets == << [abs |-> FALSE, comps |-> <<X>>],              \* 1  sibling x (se
               [abs |-> TRUE,  comps |-> <<OUT, M>>],         \* 18 the mount point beneath
               [abs |-> TRUE,  comps |-> <<OUT, A, S>>],      \* 19 the deeper secret itself
               [abs |-> TRUE,  comps |-> <<MNT, H>>],         \* 20 a file of ./d when only ./d is mounted
-              [abs |-> TRUE,  comps |-> <<OUT, A, M>>] >>    \* 21 the mount point beneath /out/a
+              [abs |-> TRUE,  comps |-> <<OUT, A, M>>],      \* 21 the mount point beneath /out/a
+              [abs |-> TRUE,  comps |-> <<MNT, LAT>>],       \* 22 the file whose name is the byte 0xE9
+              [abs |-> TRUE,  comps |-> <<MNT, DFF>>] >>     \* 23 the directory "d" 0xFF
 
 CONSTANTS TargetIds,      \* subset of DOMAIN Targets used by this configuration
           MountCfgIds,    \* subset of DOMAIN MountCfgs
